@@ -32,13 +32,13 @@ def gen(W):
     sc["lookahead"] = W.choice([0, 1])
     sc["recv_bytes"] = W.choice([8192, 64, 9, 1], p0=0.5)
     sc["threads"] = W.choice([1, 2])
-    sc["inbuf_overflow"] = W.choice([524288, 20])
+    sc["inbuf_overflow"] = W.choice([524288, 20, 20000])
     sc["use_poll"] = W.chance(0.2)
     n = 1 + W.draw(4)
     msgs = []
     nmut = 0
     for i in range(n):
-        m = reqgen.gen_message(W, i)
+        m = reqgen.gen_message(W, i, {"big_body": W.choice([2000, 30000], p0=0.8)})
         if nmut < 2 and W.chance(0.65 if nmut == 0 else 0.15):
             label = reqgen.pick_mutation(W, m)
             reqgen.apply_mutation(m, label, W)
